@@ -224,6 +224,18 @@ type c10Broker struct {
 }
 
 func (b *c10Broker) onFrame(c *c10Conn, f []byte) {
+	// on a corrupted wire "frames" are garbage: never let the broker's own slicing crash the run
+	defer func() {
+		if r := recover(); r != nil {
+			c.mu.Lock()
+			c.broken = true
+			ob := c.onBroken
+			c.mu.Unlock()
+			if ob != nil {
+				ob()
+			}
+		}
+	}()
 	body := c10Body(f)
 	id := func() []byte {
 		if len(body) >= 2 {
@@ -337,6 +349,7 @@ type c10ProbeObs struct {
 type c10ChildOut struct {
 	Runs       []c10RunObs            `json:"runs"`
 	Probes     []c10ProbeObs          `json:"probes"`
+	BigRuns    []c10RunObs            `json:"big_runs"`
 	Stress     map[string]interface{} `json:"stress"`
 	StuckNotes []string               `json:"stuck_notes,omitempty"`
 }
@@ -572,22 +585,25 @@ func c10WaitGroup(wg *sync.WaitGroup, d time.Duration) bool {
 
 var c10GoroutineHdr = regexp.MustCompile(`(?m)^goroutine \d+ \[([^\]]*)\]:$`)
 
-// c10WriterBlockedOnMutex: is some goroutine inside (*BaseClient).write waiting for a sync.Mutex
-// (and not inside the transport)? Read from a dump of all goroutine stacks.
-func c10WriterBlockedOnMutex() bool {
-	buf := make([]byte, 1<<20)
+// c10WritersBlockedOnMutex: how many goroutines are inside (*BaseClient).write waiting for a
+// sync.Mutex (and not inside the transport)? Read from a dump of all goroutine stacks.
+func c10WritersBlockedOnMutex() int {
+	buf := make([]byte, 4<<20)
 	n := runtime.Stack(buf, true)
+	cnt := 0
 	for _, g := range strings.Split(string(buf[:n]), "\n\n") {
 		if !strings.Contains(g, "mqtt-go.(*BaseClient).write(") || strings.Contains(g, "(*c10Conn).Write(") {
 			continue
 		}
 		m := c10GoroutineHdr.FindStringSubmatch(g)
 		if (m != nil && strings.Contains(m[1], "sync.Mutex.Lock")) || strings.Contains(g, "sync.(*Mutex).Lock") || strings.Contains(g, "sync.(*Mutex).lockSlow") {
-			return true
+			cnt++
 		}
 	}
-	return false
+	return cnt
 }
+
+func c10WriterBlockedOnMutex() bool { return c10WritersBlockedOnMutex() > 0 }
 
 type c10ProbeSpec struct {
 	holder    string // "publish0", "publish1", "subscribe", "ping", "pubrel"
@@ -794,6 +810,313 @@ func c10Until(cond func() bool) bool {
 			time.Sleep(200 * time.Microsecond)
 		}
 	}
+}
+
+// ===================================================================== (a) large packets under forced contention
+
+type c10GateEvent struct {
+	pkt     []byte
+	release chan struct{}
+}
+
+// c10Contend: one large QoS1 publisher (payload of payloadLen bytes), one earlier waiter, two small
+// QoS0 publishers and the reader's PUBACK all queue on muWrite behind a writer that is held inside
+// Transport.Write; every waiter has waited longer than sync.Mutex's 1 ms starvation threshold when
+// the gate opens. Before that, the holder goroutine (which publishes back to back) is used to
+// barge in front of a woken waiter, which switches the mutex to starvation mode (FIFO hand-over):
+// a writer that releases muWrite in the middle of its packet then gets its second half on the
+// wire only after everybody who queued meanwhile. Nothing here is needed for soundness — the
+// per-call log already shows a split packet — it only makes the interleaving itself likely.
+func c10Contend(payloadLen int, fill byte) c10RunObs {
+	conn := newC10Conn()
+	br := &c10Broker{wantAcks: 1, acksDone: make(chan struct{})}
+	acksDone := br.acksDone
+	conn.onFrame = br.onFrame
+	obs := c10RunObs{Desc: fmt.Sprintf("contention: PUBLISH QoS1 with a %d-byte payload queued on muWrite with 3 small writers and the reader's PUBACK behind a held Transport.Write", payloadLen)}
+	cli, err := c10ConnectBase(conn, mqtt.HandlerFunc(func(*mqtt.Message) {}))
+	if err != nil {
+		obs.OpErrors = append(obs.OpErrors, "connect: "+err.Error())
+		obs.Stuck = true
+		return obs
+	}
+	var emu sync.Mutex
+	var opErrors []string
+	stuck := false
+	runCtx, cancelRun := context.WithCancel(context.Background())
+	defer cancelRun()
+	events := make(chan c10GateEvent)
+	conn.mu.Lock()
+	conn.onBroken = cancelRun
+	conn.gate = func(p []byte) {
+		ev := c10GateEvent{pkt: p, release: make(chan struct{})}
+		select {
+		case events <- ev:
+			select {
+			case <-ev.release:
+			case <-runCtx.Done():
+			}
+		case <-runCtx.Done():
+		}
+	}
+	conn.mu.Unlock()
+	opErr := func(s string) { emu.Lock(); opErrors = append(opErrors, s); emu.Unlock() }
+	isA := func(p []byte) bool { return len(p) > 5 && p[0] == 0x30 && p[4] == 'A' }
+	var stopA int32
+	var nA int32
+	var wg sync.WaitGroup
+	wg.Add(1)
+	go func() { // the holder: QoS0 publishes back to back
+		defer wg.Done()
+		for k := 0; k < 40 && atomic.LoadInt32(&stopA) == 0; k++ {
+			ctx, cancel := context.WithTimeout(runCtx, 10*time.Second)
+			atomic.AddInt32(&nA, 1)
+			if err := cli.Publish(ctx, &mqtt.Message{Topic: "A", Payload: []byte{byte(k)}}); err != nil {
+				opErr("holder: " + errClass(err))
+				cancel()
+				return
+			}
+			cancel()
+		}
+	}()
+	small := func(topic string, k int) {
+		wg.Add(1)
+		go func() {
+			defer wg.Done()
+			ctx, cancel := context.WithTimeout(runCtx, 10*time.Second)
+			defer cancel()
+			if err := cli.Publish(ctx, &mqtt.Message{Topic: topic, Payload: []byte{byte(k)}}); err != nil {
+				opErr(topic + ": " + errClass(err))
+			}
+		}()
+	}
+	next := func() (c10GateEvent, bool) {
+		select {
+		case ev := <-events:
+			return ev, true
+		case <-time.After(8 * time.Second):
+			return c10GateEvent{}, false
+		}
+	}
+	expected := [][]byte{c10EncConnect("cid")}
+	held, ok := next() // the holder's first write
+	barged := false
+	noQueue := false
+	nW := 0
+	for attempt := 0; ok && attempt < 6 && !barged; attempt++ {
+		want := c10WritersBlockedOnMutex() + 1
+		small("W", nW)
+		expected = append(expected, encPublish(inMsg{Topic: []byte("W"), Payload: []byte{byte(nW)}}))
+		nW++
+		if !c10Until(func() bool { return c10WritersBlockedOnMutex() >= want }) {
+			noQueue = true // nobody parks on muWrite (or not in a way the dump shows): do not wait for queues below
+			break
+		}
+		time.Sleep(2 * time.Millisecond) // the waiter must have waited > 1 ms
+		close(held.release)
+		var ev c10GateEvent
+		if ev, ok = next(); !ok {
+			break
+		}
+		if isA(ev.pkt) {
+			barged = true // the holder re-acquired before the woken waiter: the waiter now starves
+			held = ev
+		} else {
+			close(ev.release) // the waiter won; hold the holder's next write and try again
+			held, ok = next()
+			for ok && !isA(held.pkt) {
+				close(held.release)
+				held, ok = next()
+			}
+		}
+	}
+	if !ok {
+		stuck = true
+	} else {
+		time.Sleep(2 * time.Millisecond) // let the starving waiter run and mark the mutex
+		base := c10WritersBlockedOnMutex()
+		payload := bytes.Repeat([]byte{fill}, payloadLen)
+		wg.Add(1)
+		go func() {
+			defer wg.Done()
+			ctx, cancel := context.WithTimeout(runCtx, 20*time.Second)
+			defer cancel()
+			if err := cli.Publish(ctx, &mqtt.Message{Topic: "L", Payload: payload, QoS: 1, ID: 4242}); err != nil {
+				opErr("large: " + errClass(err))
+			}
+		}()
+		expected = append(expected, encPublish(inMsg{Topic: []byte("L"), Payload: payload, QoS: 1, ID: 4242}))
+		if !noQueue {
+			c10Until(func() bool { return c10WritersBlockedOnMutex() >= base+1 })
+		}
+		small("S1", 1)
+		small("S2", 2)
+		expected = append(expected, encPublish(inMsg{Topic: []byte("S1"), Payload: []byte{1}}), encPublish(inMsg{Topic: []byte("S2"), Payload: []byte{2}}))
+		conn.send(encPublish(inMsg{Topic: []byte("in/1"), ID: 909, QoS: 1, Payload: []byte{7}}))
+		expected = append(expected, encID(0x40, 909))
+		if noQueue {
+			opErr("no writer was seen queued on muWrite behind the held Transport.Write")
+		} else if !c10Until(func() bool { return c10WritersBlockedOnMutex() >= base+4 }) {
+			opErr("not all writers were seen queued on muWrite")
+		}
+		time.Sleep(2 * time.Millisecond)
+		atomic.StoreInt32(&stopA, 1)
+		close(held.release)
+	}
+	// from here on every write passes the gate at once
+	drainDone := make(chan struct{})
+	go func() {
+		defer close(drainDone)
+		for {
+			select {
+			case ev := <-events:
+				close(ev.release)
+			case <-runCtx.Done():
+				return
+			}
+		}
+	}()
+	if !c10WaitGroup(&wg, 40*time.Second) {
+		stuck = true
+	}
+	select {
+	case <-acksDone:
+	case <-runCtx.Done():
+	case <-time.After(10 * time.Second):
+		stuck = true
+	}
+	c10Until(func() bool {
+		conn.mu.Lock()
+		defer conn.mu.Unlock()
+		return conn.inFlight == 0
+	})
+	for k := 0; k < int(atomic.LoadInt32(&nA)); k++ {
+		expected = append(expected, encPublish(inMsg{Topic: []byte("A"), Payload: []byte{byte(k)}}))
+	}
+	emitted, calls, maxIn, _ := conn.snapshot()
+	cancelRun()
+	<-drainDone
+	cli.Close()
+	select {
+	case <-cli.Done():
+	case <-time.After(10 * time.Second):
+		stuck = true
+	}
+	emu.Lock()
+	obs.OpErrors = append([]string{}, opErrors...)
+	emu.Unlock()
+	obs.Desc += fmt.Sprintf(" (mutex starvation established: %v)", barged)
+	obs.Emitted, obs.Calls, obs.Expected, obs.MaxInFlight, obs.Stuck = c10Hex(emitted), c10Hex(calls), c10Hex(expected), maxIn, stuck
+	return obs
+}
+
+// c10BigWireRun: concurrent publishers with payload sizes on both sides of plausible buffering
+// thresholds, small writers and inbound traffic, on the yielding transport.
+func c10BigWireRun(rng *rand.Rand, sizes []int, nSmall, nInbound int) c10RunObs {
+	conn := newC10Conn()
+	conn.yield = true
+	br := &c10Broker{wantAcks: nInbound, acksDone: make(chan struct{})}
+	done := br.acksDone
+	conn.onFrame = br.onFrame
+	obs := c10RunObs{Desc: fmt.Sprintf("large-packet wire run: payload sizes %v, %d small writers, %d inbound messages", sizes, nSmall, nInbound)}
+	cli, err := c10ConnectBase(conn, mqtt.HandlerFunc(func(*mqtt.Message) { c10Perturb() }))
+	if err != nil {
+		obs.OpErrors = append(obs.OpErrors, "connect: "+err.Error())
+		obs.Stuck = true
+		return obs
+	}
+	var emu sync.Mutex
+	var opErrors []string
+	stuck := false
+	runCtx, cancelRun := context.WithCancel(context.Background())
+	defer cancelRun()
+	conn.mu.Lock()
+	conn.onBroken = cancelRun
+	conn.mu.Unlock()
+	opErr := func(s string) { emu.Lock(); opErrors = append(opErrors, s); emu.Unlock(); cancelRun() }
+	expected := [][]byte{c10EncConnect("cid")}
+	start := make(chan struct{})
+	var wg sync.WaitGroup
+	for i, n := range sizes {
+		qos := byte(i % 3)
+		id := uint16(500 + i)
+		payload := bytes.Repeat([]byte{byte(0x41 + i%26)}, n)
+		topic := fmt.Sprintf("big/%d", i)
+		expected = append(expected, encPublish(inMsg{Topic: []byte(topic), ID: id, QoS: qos, Payload: payload}))
+		if qos == 2 {
+			expected = append(expected, encID(0x62, id))
+		}
+		wg.Add(1)
+		go func() {
+			defer wg.Done()
+			<-start
+			ctx, cancel := context.WithTimeout(runCtx, 30*time.Second)
+			defer cancel()
+			if err := cli.Publish(ctx, &mqtt.Message{Topic: topic, Payload: payload, QoS: mqtt.QoS(qos), ID: id}); err != nil {
+				opErr("big publish: " + errClass(err))
+			}
+		}()
+	}
+	for g := 0; g < nSmall; g++ {
+		for k := 0; k < 4; k++ {
+			expected = append(expected, encPublish(inMsg{Topic: []byte(fmt.Sprintf("s/%d", g)), Payload: []byte{byte(k)}}))
+		}
+		wg.Add(1)
+		go func(g int) {
+			defer wg.Done()
+			<-start
+			for k := 0; k < 4; k++ {
+				ctx, cancel := context.WithTimeout(runCtx, 30*time.Second)
+				if err := cli.Publish(ctx, &mqtt.Message{Topic: fmt.Sprintf("s/%d", g), Payload: []byte{byte(k)}}); err != nil {
+					opErr("small publish: " + errClass(err))
+				}
+				cancel()
+				runtime.Gosched()
+			}
+		}(g)
+	}
+	for k := 0; k < nInbound; k++ {
+		id := uint16(31000 + k)
+		if k%2 == 0 {
+			expected = append(expected, encID(0x40, id))
+		} else {
+			expected = append(expected, encID(0x50, id), encID(0x70, id))
+		}
+	}
+	wg.Add(1)
+	go func() {
+		defer wg.Done()
+		<-start
+		for k := 0; k < nInbound; k++ {
+			id := uint16(31000 + k)
+			conn.send(encPublish(inMsg{Topic: []byte("in"), ID: id, QoS: byte(1 + k%2), Payload: []byte{byte(k)}}))
+			runtime.Gosched()
+		}
+	}()
+	close(start)
+	if !c10WaitGroup(&wg, 90*time.Second) {
+		stuck = true
+	}
+	if nInbound > 0 {
+		select {
+		case <-done:
+		case <-runCtx.Done():
+		case <-time.After(20 * time.Second):
+			stuck = true
+		}
+	}
+	c10Until(func() bool { conn.mu.Lock(); defer conn.mu.Unlock(); return conn.inFlight == 0 })
+	emitted, calls, maxIn, _ := conn.snapshot()
+	cli.Close()
+	select {
+	case <-cli.Done():
+	case <-time.After(20 * time.Second):
+		stuck = true
+	}
+	emu.Lock()
+	obs.OpErrors = append([]string{}, opErrors...)
+	emu.Unlock()
+	obs.Emitted, obs.Calls, obs.Expected, obs.MaxInFlight, obs.Stuck = c10Hex(emitted), c10Hex(calls), c10Hex(expected), maxIn, stuck
+	return obs
 }
 
 // ===================================================================== (c) exploration under the race detector
@@ -1171,6 +1494,31 @@ func runC10Child(cfg *runCfg) error {
 		}
 	}
 	lap("probes")
+	bigSizes := []int{255, 256, 1023, 1024, 4095, 4096, 4097, 8192, 65535, 65536}
+	convicted := 0
+	for i, n := range bigSizes {
+		if cfg.tier == "quick" && (n == 255 || n == 1023 || n == 4095 || n == 65535) && (int(cfg.seed)+i)%2 == 0 {
+			continue // quick: the lower neighbour of each threshold on alternate seeds only
+		}
+		r := c10Contend(n, byte(0x61+i))
+		out.BigRuns = append(out.BigRuns, r)
+		if r.Stuck || len(r.OpErrors) > 0 {
+			convicted++ // a broken tree makes these scenarios slow (they wait out their timeouts): two are enough
+			if convicted >= 2 {
+				break
+			}
+		}
+	}
+	runtime.GOMAXPROCS(2 + rng.Intn(7))
+	if cfg.tier == "quick" {
+		out.BigRuns = append(out.BigRuns, c10BigWireRun(rng, []int{256, 1024, 4096, 4097, 8192, 16384}, 6, 8))
+	} else {
+		out.BigRuns = append(out.BigRuns, c10BigWireRun(rng, bigSizes, 6, 8))
+		out.BigRuns = append(out.BigRuns, c10BigWireRun(rng, []int{4096, 4097, 8192, 16384, 70000, 200000}, 12, 16))
+		out.BigRuns = append(out.BigRuns, c10Contend(1<<20-1, 0x7a), c10Contend(300000, 0x79))
+	}
+	runtime.GOMAXPROCS(procs)
+	lap("large_packets")
 	out.Stress["connect_overlap_iterations"] = c10StressConnect(rng, connectIters)
 	lap("connect_overlap")
 	c10StressRetry(rng, retryIters)
@@ -1271,6 +1619,46 @@ func c10CoqByteLists(bs [][]byte) string {
 		items[i] = cBytes(b)
 	}
 	return cListInline(items)
+}
+
+func c10CoqRLE(b []byte) string {
+	var runs []string
+	for i := 0; i < len(b); {
+		j := i
+		for j < len(b) && b[j] == b[i] {
+			j++
+		}
+		runs = append(runs, fmt.Sprintf("(%d,%d)", b[i], j-i))
+		i = j
+	}
+	return cListInline(runs)
+}
+
+func c10CoqRLELists(bs [][]byte) string {
+	items := make([]string, len(bs))
+	for i, b := range bs {
+		items[i] = c10CoqRLE(b)
+	}
+	return cListInline(items)
+}
+
+func c10CoqBigRun(r c10RunObs) string {
+	return cTuple(c10CoqRLELists(c10DecodeHexList(r.Emitted)), c10CoqRLELists(c10DecodeHexList(r.Calls)), c10CoqRLELists(c10DecodeHexList(r.Expected)))
+}
+
+// first Transport.Write call that is not exactly one packet (for the replay text only)
+func c10FirstSplitCall(calls [][]byte) (int, string) {
+	for i, c := range calls {
+		_, rest, st := c10SplitFrame(c)
+		if st != 1 || len(rest) != 0 {
+			h := c
+			if len(h) > 48 {
+				h = h[:48]
+			}
+			return i, fmt.Sprintf("%d bytes starting %s", len(c), hex.EncodeToString(h))
+		}
+	}
+	return -1, ""
 }
 
 func c10CoqRun(r c10RunObs) string {
@@ -1409,7 +1797,7 @@ func runC10(cfg *runCfg) error {
 		// the child died (a panic or a fatal error such as "concurrent map writes" in the library
 		// is a finding; anything else is a broken harness)
 		txt := stderr.String()
-		if strings.Contains(txt, "at-wat/mqtt-go") && (strings.Contains(txt, "fatal error:") || strings.Contains(txt, "panic:")) {
+		if c10CrashInLibrary(txt) {
 			m.ImplViolations = append(m.ImplViolations, map[string]interface{}{
 				"what": "the stress child crashed inside the library", "output": c10Tail(txt, 6000)})
 		} else {
@@ -1450,8 +1838,48 @@ func runC10(cfg *runCfg) error {
 		m.Families["probe_blocked"] = append(m.Families["probe_blocked"], d)
 		nPackets += len(p.Calls)
 	}
+	var bigRows []string
+	for _, r := range co.BigRuns {
+		bigRows = append(bigRows, c10CoqBigRun(r))
+		calls := c10DecodeHexList(r.Calls)
+		off, ctxhex := c10FirstBadOffset(c10DecodeHexList(r.Emitted))
+		ci, cdesc := c10FirstSplitCall(calls)
+		d := map[string]interface{}{"run": r.Desc, "op_errors": r.OpErrors, "stuck": r.Stuck, "write_calls": len(r.Calls), "expected_packets": len(r.Expected)}
+		if off >= 0 {
+			d["wire_stops_framing_at_offset"] = off
+			d["wire_hex_around"] = ctxhex
+		}
+		if ci >= 0 {
+			d["first_Write_call_that_is_not_one_whole_packet"] = ci
+			d["that_call"] = cdesc
+		}
+		var lens []int
+		for _, c := range calls {
+			lens = append(lens, len(c))
+		}
+		d["write_call_lengths"] = lens
+		m.Families["bigwire"] = append(m.Families["bigwire"], d)
+		m.Families["big_one_write"] = append(m.Families["big_one_write"], d)
+		nPackets += len(r.Calls)
+		if r.Stuck {
+			m.ImplViolations = append(m.ImplViolations, map[string]interface{}{"what": "large-packet run did not finish (stuck)", "run": r.Desc, "op_errors": r.OpErrors})
+		}
+	}
+	for i, r := range co.Runs {
+		if ci, cdesc := c10FirstSplitCall(c10DecodeHexList(r.Calls)); ci >= 0 {
+			if d, ok := m.Families["wire"][i].(map[string]interface{}); ok {
+				d["first_Write_call_that_is_not_one_whole_packet"] = ci
+				d["that_call"] = cdesc
+			}
+		}
+	}
+	m.Families["one_write"] = m.Families["wire"]
 	cf.def("c10_runs", "list c10_run", cList(runRows))
 	cf.result("V_wire", "c10_wire_violations c10_runs")
+	cf.result("V_one_write", "c10_call_violations c10_runs")
+	cf.def("c10_big_runs", "list c10_big_run", cList(bigRows))
+	cf.result("V_bigwire", "c10_big_wire_violations c10_big_runs")
+	cf.result("V_big_one_write", "c10_big_call_violations c10_big_runs")
 	cf.result("M_model", "c10_model_mismatches 150%nat c10_runs")
 	cf.def("c10_probes", "list c10_probe", cList(probeRows))
 	cf.result("V_overlap", "c10_probe_violations c10_probes")
@@ -1483,7 +1911,7 @@ func runC10(cfg *runCfg) error {
 	}
 
 	// ---------------- evidence
-	m.Evaluations = len(x.accesses) + len(pairs) + len(co.Runs) + len(co.Probes)
+	m.Evaluations = len(x.accesses) + len(pairs) + len(co.Runs) + len(co.Probes) + len(co.BigRuns)
 	m.DistinctNontrivial = len(pairs) + len(co.Probes) + len(co.Runs)
 	m.Rule = "a candidate pair = two table rows on one field, not both reads, not both atomic; a probe = one (holder, contender) combination of writers; a wire run = one concurrent session with >= 8 goroutines and inbound traffic"
 	roles := map[string]int{}
@@ -1494,7 +1922,7 @@ func runC10(cfg *runCfg) error {
 	}
 	m.Distribution = map[string]interface{}{
 		"access_table_rows": len(x.accesses), "candidate_pairs": len(pairs), "rows_per_field": byField, "rows_per_role": roles,
-		"translator_warnings": x.warnings, "wire_runs": len(co.Runs), "overlap_probes": len(co.Probes),
+		"translator_warnings": x.warnings, "wire_runs": len(co.Runs), "overlap_probes": len(co.Probes), "large_packet_runs": len(co.BigRuns),
 		"packets_written_in_wire_runs_and_probes": nPackets, "race_exploration": co.Stress, "race_reports_total": len(races),
 		"race_reports_library_distinct": len(seen), "child_wall_s": childWall.Seconds(), "stuck_notes": co.StuckNotes,
 		"tier": cfg.tier, "seed": cfg.seed,
@@ -1511,6 +1939,33 @@ func runC10(cfg *runCfg) error {
 		return err
 	}
 	return m.write(cfg.outDir)
+}
+
+// c10CrashInLibrary: the child died of a panic / fatal error whose innermost non-runtime frame is
+// library code (a crash inside the harness itself is a machinery error, not a finding).
+func c10CrashInLibrary(txt string) bool {
+	i := strings.Index(txt, "panic:")
+	if j := strings.Index(txt, "fatal error:"); j >= 0 && (i < 0 || j < i) {
+		i = j
+	}
+	if i < 0 {
+		return false
+	}
+	rest := txt[i:]
+	k := strings.Index(rest, "\ngoroutine ")
+	if k < 0 {
+		return false
+	}
+	for _, l := range strings.Split(rest[k+1:], "\n")[1:] {
+		if l == "" {
+			break
+		}
+		if strings.HasPrefix(l, "\t") || strings.HasPrefix(l, "panic(") || strings.HasPrefix(l, "runtime.") || strings.HasPrefix(l, "sync.") || strings.HasPrefix(l, "internal/") {
+			continue
+		}
+		return strings.HasPrefix(l, "github.com/at-wat/mqtt-go.")
+	}
+	return false
 }
 
 func c10Tail(s string, n int) string {
